@@ -67,6 +67,7 @@ func main() {
 		r.Assume("reducers are documented to consume: after Collect / Last / Reduce / Equal (all sequences equal, any arity incl. 1) over the library's own sources the source must be exhausted; One must have taken min(len,2)..len items; Equal with a first disagreement at p at least min(p,len) of each")
 		r.Assume("32-bit variant (thorough, GOARCH=386): quick-sized workload plus, for 10 constructors / combinators that keep a counter, run to their end, 2^31+2^10 (Repeat: 2^32+2^10) further polls that must all report the end; on 64-bit builds a counter that keeps moving after the end cannot wrap within reach and is not observable")
 		r.Assume("per-call contexts (streams): the source honours a cancelled context before consuming; a call made with it may fail with the context's error (then nothing is lost and a retry with a live context continues exactly) or answer normally from what is buffered; callbacks never fail. Reading the used combinator again after it was wrapped is checked for iterators only: package stream makes the wrapper the sole user of its argument")
+		r.Assume("caller reuse: a variadic list (iterator.Join, stream.Join) belongs to the caller again once the constructor has returned; overwriting it (every cell and the spare capacity) with decoys, at once or after j requests, must not change what the result yields. iterator.Slice(s) is a view of s by design and is not checked this way")
 		r.Assume("argument integrity: no operation of this property is documented to modify a slice it is handed; every slice argument (variadic source lists, item slices, slices of slices) is a sub-slice with spare capacity of a sentinel-guarded array that must be unchanged after every request. stream.FlattenSlices overwriting the items INSIDE a slice it has consumed is recorded, not judged")
 		r.Assume("non-termination is decided by a call budget, not by time: callbacks and probe sources may be invoked at most 200*(n+16) times per run of one flavour over n items (legitimate runs need a few times n)")
 		r.Assume("parameters inside the documented domain only: chunkSize >= 1, First/Last n >= 0, xslices.Repeat n >= 0")
@@ -188,6 +189,8 @@ func main() {
 		r.Floor("long-stretch scenarios run", longRun, int64(len(longs)))
 		r.Floor("argument-integrity probes", r.Table("totals", "argument-integrity probes (caller's array incl. sentinels unchanged)"), int64(10*N))
 		r.Floor("Runs checked with undrained inner runs", r.Table("Runs with undrained inner runs: items read of each run before the outer advances", "the first item"), int64(N))
+		r.Floor("Join with the caller reusing its argument slice", r.Table("argument integrity", "iterator.Join: caller overwrites its argument slice with decoys after the call / after j requests")+
+			r.Table("argument integrity", "stream.Join: caller overwrites its argument slice with decoys after the call / after j requests"), int64(4*sp.offset[nestedJoinLen+1]))
 		r.Floor("nested Join scenarios over one shared array", r.Table("argument integrity", "iterator.Join nested: Join(Join(L[:m]...), trailer) then Join(L[m:]...)")+
 			r.Table("argument integrity", "stream.Join nested: Join(Join(L[:m]...), trailer) then Join(L[m:]...)"), int64(2*sp.offset[nestedJoinLen+1]))
 		r.Floor("source-position checks", r.Table("totals", "source-position checks (rest of the library's own source read after j requests)"), int64(100*N))
